@@ -29,6 +29,7 @@ CONSTANTS
   FracNum, FracDen,  \* EvictFraction = FracNum / FracDen
   Strategy,      \* "expired" | "lru" | "lfu"
   EvictNeeded,   \* BOOLEAN: EvictionNeeded callback configured (may answer TRUE)
+  ForceEvict,    \* BOOLEAN: a heap / system memory soft limit is breached in every cycle (limit of one byte)
   FloatSlack,    \* BOOLEAN: the evicted amount may be off by one entry (the code computes it in floating point;
                  \* C12 says "within one entry"); FALSE where the parameters make floating point exact
   MaxNow,
@@ -180,6 +181,14 @@ Relay ==
   /\ clk' = clk + 1
   /\ UNCHANGED <<now, slot, met, cnt>>
 
+(* Walk whose callback fails on the first entry: the walk stops, reports    *)
+(* the error and zero processed entries.                                    *)
+WalkStop ==
+  /\ reply' = IF Used(slot) = {} THEN Rep("n", NoVal, 0, 0) ELSE Rep("stopped", NoVal, 0, 0)
+  /\ op' = Op("WalkStop", "", NoVal, 0, FALSE)
+  /\ clk' = clk + 1
+  /\ UNCHANGED <<now, slot, expSeen, met, cnt>>
+
 Tick ==
   /\ now < MaxNow
   /\ now' = now + 1
@@ -226,7 +235,7 @@ Cleanup(needed) ==
   LET s1 == AfterDeleteExpired(slot)
       n1 == Cardinality(Used(s1))
       co == CountLimit > 0 /\ n1 > CountLimit
-      trig == co \/ needed
+      trig == co \/ needed \/ ForceEvict
       ex == IF trig THEN EvictCount(n1, co) ELSE 0
       nes == IF FloatSlack /\ trig THEN {x \in {ex - 1, ex, ex + 1} : x >= 0 /\ x <= n1} ELSE {ex}
   IN
@@ -247,7 +256,7 @@ Next ==
   \/ \E k \in Keys, s \in BOOLEAN : Read(k, s)
   \/ \E k \in Keys : Load(k)
   \/ \E k \in Keys : Delete(k)
-  \/ ExpireAll \/ DeleteAll \/ LenOp \/ Walk \/ Tick \/ Relay
+  \/ ExpireAll \/ DeleteAll \/ LenOp \/ Walk \/ WalkStop \/ Tick \/ Relay
   \/ \E b \in BOOLEAN : Cleanup(b)
 
 vars == <<now, slot, expSeen, clk, op, reply, met, cnt>>
@@ -295,6 +304,7 @@ CleanupExact ==
 EvictOnlyOnTrigger ==
   [][op'.name = "Cleanup" /\ reply'.n > 0 =>
        \/ op'.skip   \* EvictionNeeded answered TRUE
+       \/ ForceEvict
        \/ (CountLimit > 0 /\ Cardinality(Used(AfterDeleteExpired(slot))) > CountLimit)]_vars
 
 (* C12 (iii): every removed entry ranks no higher than every kept entry.    *)
@@ -312,7 +322,7 @@ EvictAmount ==
        IN IF CountLimit > 0 /\ n1 > CountLimit
             THEN /\ n2 * FracDen <= CountLimit * (FracDen - FracNum) + FracDen
                  /\ n2 * FracDen >= CountLimit * (FracDen - FracNum) - FracDen
-            ELSE IF op'.skip
+            ELSE IF op'.skip \/ ForceEvict
               THEN /\ (n1 - n2) * FracDen <= n1 * FracNum
                    /\ (n1 - n2) * FracDen >= n1 * FracNum - FracDen
               ELSE n2 = n1]_vars
